@@ -431,7 +431,8 @@ func (a *pwaligner) backTrack_SW() {
 				j--
 			}
 		}
-		if i > 0 && j > 0 && a.matrix[i][j] <= .0 && a.algo != ALIGN_ALGO_ATG {
+		// We stop at the first null cell, including on the first row and column
+		if i >= 0 && j >= 0 && a.matrix[i][j] <= .0 && a.algo != ALIGN_ALGO_ATG {
 			break
 		}
 	}
